@@ -742,6 +742,150 @@ theorem C13_open_options_open (o : OpenOptions) (path : List Nat) :
   · intro hk; simp [OpenOptions.openArgs, hk, cloexec, fill, createIndex]
 
 
+/-! ### Synchronous fallbacks
+
+Some operations answer a completion error that means "this kernel has no
+io_uring form of the call" by issuing the synchronous system call themselves
+(`fallbackCall`). A system call takes a *regular* descriptor number; issued for
+an operation on a direct descriptor it would act on whatever regular descriptor
+happens to have the number of the direct index. -/
+
+/-- The operation's target is a direct descriptor (operations that run on the
+submission queue — open, socket, pipe, … — have no target descriptor). -/
+def DirectTarget (op : OpKind) (k : FdKind) : Prop := op.onQueue = false ∧ k = .direct
+
+instance (op : OpKind) (k : FdKind) : Decidable (DirectTarget op k) := by
+  unfold DirectTarget; infer_instance
+
+/-- **When a system call is issued**, for all operations, arguments, descriptor
+kinds and errors: exactly when the error is the special one of that operation
+and the target is not a direct descriptor. -/
+theorem C13_fallback_iff (op : OpKind) (a : Args) (k : FdKind) (e : Int) :
+    (fallbackCall op a k e).isSome = true ↔ (specialErr op e = true ∧ ¬ DirectTarget op k) := by
+  cases op <;> cases k <;>
+    simp [fallbackCall, specialErr, DirectTarget, OpKind.onQueue] <;>
+    (try (split <;> simp_all))
+
+/-- No operation on a direct descriptor ever issues a system call, whatever
+the error. -/
+theorem C13_fallback_never_on_direct (op : OpKind) (a : Args) (k : FdKind) (e : Int)
+    (h : DirectTarget op k) : fallbackCall op a k e = none := by
+  obtain ⟨hq, hk⟩ := h
+  subst hk
+  cases op <;> simp [fallbackCall, OpKind.onQueue] at hq ⊢
+
+/-- On a direct descriptor the caller gets the operation's ordinary error
+result, for every operation and error, whatever a system call would have
+returned … -/
+theorem C13_fallback_direct_result (op : OpKind) (a : Args) (k : FdKind) (e sys : Int)
+    (h : DirectTarget op k) : fallbackResult op a k e sys = .err (opErr op e) := by
+  simp [fallbackResult, C13_fallback_never_on_direct op a k e h]
+
+/-- … which for the errors that have a fallback is **exactly the kernel's
+error**, untranslated. -/
+theorem C13_fallback_direct_error (op : OpKind) (a : Args) (k : FdKind) (e sys : Int)
+    (h : DirectTarget op k) (hs : specialErr op e = true) :
+    fallbackResult op a k e sys = .err (.os e) := by
+  rw [C13_fallback_direct_result op a k e sys h]
+  cases op <;> simp [specialErr] at hs <;> simp [opErr]
+
+/-- Without a fallback call the result is the ordinary error; with one it is
+the system call's own outcome: its errno unchanged, or its out-parameters
+through the decoder of the io_uring completion. -/
+theorem C13_fallback_result (op : OpKind) (a : Args) (k : FdKind) (e sys : Int) :
+    (fallbackCall op a k e = none → fallbackResult op a k e sys = .err (opErr op e)) ∧
+    (∀ c, fallbackCall op a k e = some c →
+      (sys < 0 → fallbackResult op a k e sys = .sysErr (-sys)) ∧
+      (0 ≤ sys → fallbackResult op a k e sys = .decoded)) := by
+  constructor
+  · intro h; simp [fallbackResult, h]
+  · intro c h
+    constructor
+    · intro hs; simp [fallbackResult, h, hs]
+    · intro hs
+      have : ¬ sys < 0 := by omega
+      simp [fallbackResult, h, this]
+
+/-- **The call is on the target's own descriptor**: a fallback of a descriptor
+operation passes the number of the `AsyncFd` it was called on, that descriptor
+is a regular one, and it is the descriptor the io_uring request named (same
+number, not flagged as a registered file). -/
+theorem C13_fallback_own_descriptor (op : OpKind) (a : Args) (k : FdKind) (e : Int) (c : SysCall)
+    (h : fallbackCall op a k e = some c) (hq : op.onQueue = false) :
+    c.fd = some a.fd ∧ k = .file ∧ (fill op a k).sqe.fd = (a.fd : Int) ∧
+    (fill op a k).sqe.flags &&& IOSQE_FIXED_FILE = 0 := by
+  cases op <;> simp [OpKind.onQueue] at hq <;> simp [fallbackCall] at h <;>
+    obtain ⟨⟨_, hk⟩, hc⟩ := h <;> subst hk <;> subst hc <;>
+    simp [fill, useFlags]
+
+/-- **Same arguments as the request**: which of getsockname/getpeername, the
+address buffer length, option level, name, length and value bytes, and the pipe
+flags are those the io_uring request carried (field by field of the entry and
+the memory it points to). `pipe2` additionally gets `O_CLOEXEC`: it creates
+regular descriptors, which a10 always creates close-on-exec. -/
+theorem C13_fallback_request_args (op : OpKind) (a : Args) (k : FdKind) (e : Int) (c : SysCall)
+    (hwf : WF op a k) (h : fallbackCall op a k e = some c) :
+    (op = .sockname →
+      c.name = (if (fill op a k).sqe.fileIndex = 0 then "getsockname" else "getpeername") ∧
+      (fill op a k).mem.alen = some c.len) ∧
+    (op = .getsockopt →
+      c.name = "getsockopt" ∧ c.level = numOf (fill op a k).sqe.addr % U32 ∧
+      c.optname = numOf (fill op a k).sqe.addr / U32 ∧ c.len = (fill op a k).sqe.fileIndex) ∧
+    (op = .setsockopt →
+      c.name = "setsockopt" ∧ c.level = numOf (fill op a k).sqe.addr % U32 ∧
+      c.optname = numOf (fill op a k).sqe.addr / U32 ∧ c.len = (fill op a k).sqe.fileIndex ∧
+      (fill op a k).mem.optval = some c.val ∧ c.len = c.val.length) ∧
+    (op = .pipe → c.name = "pipe2" ∧ c.flags = (fill op a k).sqe.opFlags ||| O_CLOEXEC) := by
+  obtain ⟨_, hw⟩ := hwf
+  refine ⟨?_, ?_, ?_, ?_⟩ <;> intro hop <;> subst hop <;> simp [fallbackCall] at h <;>
+    obtain ⟨_, hc⟩ := h <;> subst hc
+  · by_cases hz : a.which = 0 <;> simp [fill, hz]
+  · have hl : a.level < 4294967296 := hw
+    simp [fill, numOf, U32]
+    exact ⟨(Nat.mod_eq_of_lt hl).symm, by omega⟩
+  · obtain ⟨hl, hv⟩ := hw
+    have hl : a.level < 4294967296 := hl
+    simp [fill, numOf, U32]
+    exact ⟨(Nat.mod_eq_of_lt hl).symm, by omega, hv⟩
+  · cases hck : a.ckind <;> simp [fill, cloexec, hck, Nat.or_assoc]
+
+/-- The same, one level up: the call issued is the POSIX call the API stands
+for (`posix`), on the same regular descriptor with the same arguments. With
+`C13_encode_partial` (request = POSIX call under the ABI) the synchronous call
+and the io_uring request are the same call. -/
+theorem C13_fallback_is_posix_call (op : OpKind) (a : Args) (k : FdKind) (e : Int) (c : SysCall)
+    (h : fallbackCall op a k e = some c) (hq : op.onQueue = false) :
+    (posix op a k).name = c.name ∧
+    (posix op a k).args.lookup "fd" = some (.i a.fd) ∧ c.fd = some a.fd ∧
+    (posix op a k).args.lookup "fixed" = some (.n 0) ∧
+    (op = .sockname → (posix op a k).args.lookup "addrlen" = some (.n c.len)) ∧
+    (op ≠ .sockname →
+      (posix op a k).args.lookup "level" = some (.n c.level) ∧
+      (posix op a k).args.lookup "optname" = some (.n c.optname) ∧
+      (posix op a k).args.lookup "optlen" = some (.n c.len)) ∧
+    (op = .setsockopt → (posix op a k).args.lookup "optval" = some (.bytes c.val)) := by
+  cases op <;> simp [OpKind.onQueue] at hq <;> simp [fallbackCall] at h <;>
+    obtain ⟨⟨_, hk⟩, hc⟩ := h <;> subst hk <;> subst hc <;>
+    simp [posix, pfd, List.lookup]
+
+/-- The code before `fix: don't fall back to system calls on direct
+descriptors` (40c45eb): the three descriptor operations tested only the error. -/
+def fallbackCallOld (op : OpKind) (a : Args) (k : FdKind) (e : Int) : Option SysCall :=
+  match op with
+  | .sockname | .getsockopt | .setsockopt => fallbackCall op a .file e
+  | _ => fallbackCall op a k e
+
+/-- The repaired defect: `peer_addr()` on direct descriptor 0, completed with
+`EOPNOTSUPP`, issued `getpeername(0, …)` — on the process's regular descriptor
+0 — where the repaired code issues nothing and returns the error. -/
+theorem C13_fallback_before_fix_fails :
+    DirectTarget .sockname .direct ∧
+    fallbackCallOld .sockname { fd := 0, which := 1, aty := .v4 } .direct 95
+      = some { name := "getpeername", fd := some 0, len := 16 } ∧
+    fallbackCall .sockname { fd := 0, which := 1, aty := .v4 } .direct 95 = none ∧
+    fallbackResult .sockname { fd := 0, which := 1, aty := .v4 } .direct 95 0 = .err (.os 95) := by
+  decide
+
 /-! ### Non-vacuity: concrete arguments meet the hypotheses -/
 
 example : WF .read { fd := 700, offset := 4294967296 + 5, bufPtr := 10, bufLen := 54 } .file := by simp [WF]
@@ -761,5 +905,23 @@ example : setInitV [(4, 1), (8, 0), (3, 3)] 5 = some [4, 2, 3] := by decide
 example : timestamp (-9223372036854775808) 999999999 = some (-9223372036854775807000000001) := by decide
 example : ((OpenSetter.write).set ((OpenSetter.create).set {})).flags = O_RDWR ||| O_CREAT := by decide
 example : decodeAddr .unix (.path [47, 116, 109, 112]) 7 = some "path:2f746d70" := by decide
+
+-- fallbacks: the special error on a regular descriptor issues the call …
+example : fallbackCall .getsockopt { fd := 700, level := 6, optname := 1, optlen := 4 } .file 38
+    = some { name := "getsockopt", fd := some 700, level := 6, optname := 1, len := 4 } := by decide
+def lingerArgs : Args := { fd := 700, level := 1, optname := 13, optlen := 8, optval := encodeOpt .linger (some 7) }
+example : (fallbackCall .setsockopt lingerArgs .file 95).map (·.val) = some [1, 0, 0, 0, 7, 0, 0, 0] := by decide
+example : WF .setsockopt lingerArgs .file := by simp [WF, U32, lingerArgs, encodeOpt, Addr.le32]
+-- … the same error on a direct descriptor, or another error on a regular one, does not
+example : DirectTarget .getsockopt .direct ∧ specialErr .getsockopt 38 = true ∧
+    fallbackCall .getsockopt { fd := 5, level := 6, optname := 1, optlen := 4 } .direct 38 = none := by decide
+example : fallbackCall .sockname { fd := 700, aty := .unix } .file 22 = none ∧
+    fallbackResult .sockname { fd := 700, aty := .unix } .file 22 0 = .err (.os 22) := by decide
+-- the system call's own error is returned as it is (EINVAL is not translated)
+example : fallbackResult .sockname { fd := 700, aty := .unix } .file 95 (-22) = .sysErr 22 := by decide
+-- pipe: no target descriptor, the fallback does not depend on any kind; regular descriptors come back
+example : ¬ DirectTarget .pipe .direct ∧
+    fallbackCall .pipe { flags := 16384, ckind := .direct } .direct 22 = some { name := "pipe2", flags := 540672 } ∧
+    (fallbackDecodeArgs .pipe { flags := 16384, ckind := .direct } 0).1.ckind = .file := by decide
 
 end A10.Encode
